@@ -332,7 +332,7 @@ func planOK(s *gen.Stream, f []fkind) bool {
 }
 
 func runC06(c *mon.Ctx) {
-	n := c.Pick(60, 1500)
+	n := c.Pick(160, 2000)
 	for i := int64(0); i < n; i++ {
 		if !c.Mine("streams", i) {
 			continue
